@@ -551,6 +551,8 @@ func (c *FuncCtx) execIteratorCall(st *State, call *ast.CallExpr) ([]outcome, bo
 	if fl == nil {
 		return nil, false
 	}
+	// "at call" clauses attached to the iterator call itself (its other arguments)
+	c.atCall(st, call)
 	return c.execIterator(st, call, sel, fl), true
 }
 
